@@ -1063,8 +1063,12 @@ pub assume_specification [<{q} as PartialEq>::eq] (a: &{q}, b: &{q}) -> (r: bool
         # literal substitutions (tagged rewrites)
         body_off = a
         whole = src[a:b].decode()
-        for old, new, tag in subst:
+        for sb in subst:
+            old, new, tag = sb[0], sb[1], sb[2]
             n = whole.count(old)
+            if n == 0 and len(sb) > 3 and sb[3] == 'optional':
+                # an optional substitution: the text it stands in for is gone; the function is verified as written
+                continue
             if n != 1:
                 raise LostAnchor(f'{fn}: subst anchor {old!r} matches {n} times')
             i = len(whole[:whole.index(old)].encode()) + a
